@@ -151,6 +151,55 @@ def make_prior(pr):
     raise ValueError(k)
 
 
+_TMP = []
+_BOOLS = (('True', 'False'), ('yes', 'no'), ('TRUE', 'false'))
+
+
+def file_text(fs, ds, ko=0):
+    """The input file of a specification file [fs, ds] (Optimizer.tla: Routes): a [Fitting] section with the keys of
+    every entry and a [Derive] section.  ko varies what the specification does not distinguish: the spelling of the
+    booleans and the order of a parameter's keys (`p:fit` first or last)."""
+    yes, no = _BOOLS[ko % 3]
+    lines = ['[Fitting]']
+    for e in fs:
+        p, keys = e['p'], []
+        keys.append('%s:fit = %s' % (p, yes if e['fit'] else no))
+        if e.get('f'):
+            keys.append('%s:factor = %r, %r' % (p, p10(e['f'][0]), p10(e['f'][1])))
+        if e.get('b'):
+            keys.append('%s:bounds = %r, %r' % (p, p10(e['b'][0]), p10(e['b'][1])))
+        if e.get('m'):
+            keys.append('%s:mode = %s' % (p, spell(e['m'], e.get('cs'))))
+        pr = e.get('pr')
+        if pr and pr['kind'] != 'None':
+            k, x, y = pr['kind'], pr['a'], pr['b']
+            if k in ('Uniform', 'LogUniform'):
+                x, y = (p10(x), p10(y)) if k == 'Uniform' else (float(x), float(y))
+                keys.append('%s:prior = "%s(bounds=(%r, %r))"' % (p, k, x, y))
+            else:
+                x, y = (p10(x), p10(y)) if k == 'Gaussian' else (float(x), float(y))
+                keys.append('%s:prior = "%s(mean=%r, std=%r)"' % (p, k, x, y))
+        lines += keys[::-1] if (ko // 3) % 2 else keys
+    if ds:
+        lines.append('[Derive]')
+        lines += ['%s:compute = %s' % (d['d'], yes if d['on'] else no) for d in ds]
+    return '\n'.join(lines) + '\n'
+
+
+def file_path(text):
+    import atexit
+    import os
+    import shutil
+    import tempfile
+    if not _TMP:
+        _TMP.append(tempfile.mkdtemp(prefix='c07par_', dir='/dev/shm' if os.path.isdir('/dev/shm') and os.access('/dev/shm', os.W_OK) else None))
+        atexit.register(shutil.rmtree, _TMP[0], ignore_errors=True)
+    path = os.path.join(_TMP[0], 'in.par')
+    with open(path, 'w') as f:
+        f.write(text)
+    return path
+
+
 class BadEvent(Exception):
     """An event the harness does not know (a mistake of the harness, never a verdict)."""
 
@@ -177,6 +226,7 @@ class Real:
         self.last_copy = []         # what the caller wrote into it
         self.args_same = True       # every sequence handed to a call still holds what the caller wrote
         self.args_why = ''
+        self.sampler = None         # what the sampler saw when the last fit() entered it (projection)
 
     def hand(self, seq, kind):
         """The caller's sequence (list / tuple / float64 ndarray) and a private copy of its contents."""
@@ -228,6 +278,26 @@ class Real:
                 o.disable_derived(ev['p'])
             elif op == 'compile_params':
                 o.compile_params()
+            elif op == 'fit':
+                # the second public entry into compile: fit() with a do-nothing sampler (no solutions) that records the
+                # set-up it is handed at the moment it is entered
+                seen = []
+                self.sampler = None
+                o.compute_fit = lambda: seen.append(self.project(False))
+                o.get_solution = lambda: iter(())
+                try:
+                    o.fit()
+                finally:
+                    del o.compute_fit, o.get_solution
+                if len(seen) != 1:
+                    raise RuntimeError('fit() entered the sampler %d times' % len(seen))
+                self.sampler = seen[0]
+            elif op == 'file':
+                # the input-file route: [Fitting] / [Derive] sections applied by ParameterParser.setup_optimizer
+                from taurex.parameter import ParameterParser
+                pp = ParameterParser()
+                pp.read(file_path(file_text(ev.get('fs', []), ev.get('ds', []), ev.get('ko', 0))))
+                pp.setup_optimizer(o)
             elif op == 'update_model':
                 # entry i goes to prior i: a log prior is handed the exponent, a linear one 10^exponent
                 # (the vector may be shorter or longer than the fitted set: entries without a prior are linear)
